@@ -9,6 +9,20 @@
    record per run; TLC (Trace_Determinism) re-derives the case from its index, replays the runs as Run actions
    and prints one REJECT per input whose runs disagree. REJECT lines are the verdicts.
 3. Negative control: a recorder that salts the digest of one run must be rejected for exactly those inputs.
+4. The CONTEXT of a run (SyltDetContext, Trace_DetContext): the specification makes the history of the compiling process
+   (Run(input, history)) and the configuration (how the main file is named, from which directory) explicit and defines
+   four more universes, each recorded from the real compiler and validated by TLC:
+     hist  every program of a library (1-3 files, 0-4 std imports, name collisions with preamble imports, syntax /
+           resolution / type / import errors inside ( ) [ ] { } at depth 0-6, with and without std) fresh in its own
+           process, after itself, after every warm-up program W, after W,W' and as W,P,W',P - one process per history;
+     long  histories of hundreds (std) / thousands (no std) of compilations in ONE thread of one process, cycling
+           through accepted and rejected programs: every result must equal the first result of that input;
+     path  projects written to disk that import one module both relative and rooted (sub-folders, exports.sy, errors),
+           compiled by sylt::compile_with_reader_to_writer with sylt's own file reader, one process per spelling of
+           the main file: bare name inside the project, ./, relative from the parent, paths with .. segments, absolute;
+     seed  declarations with equal-but-not-identical keys (a member written 2-3 times), >= 256 fresh hash keys each.
+   Spec-level self-test: the generator model satisfies HistoryIndependence / SpellingIndependence for an implementation
+   that is a function of its input, and TLC finds the violation for a "cache", a "counter" and a "spelling" implementation.
 """
 import collections
 import json
@@ -145,12 +159,239 @@ def spec_selftest(wd, ev):
                        "free_mode": {"violated": r2.invariant_violated, "states_until_violation": r2.distinct}})
 
 
+# ------------------------------------------------------------------------------------------------------------
+# The context dimensions: histories, long histories, spellings of the main file, hash seeds (SyltDetContext)
+
+CTX_KINDS = ("hist", "long", "path", "seed")
+SEEDS_QUICK, SEEDS_THOROUGH = 256, 512
+
+
+def ctx_args(kind, tier):
+    if kind == "hist":
+        return ["all", "all"]
+    if kind == "long":
+        return ["400", "2500", "all"] if tier == "quick" else ["1200", "6000", "all"]
+    if kind == "path":
+        return ["all"]
+    return [str(SEEDS_QUICK), "120"] if tier == "quick" else [str(SEEDS_THOROUGH), "all"]
+
+
+def ctx_signature(kind, grp, rej, progs):
+    """From the case and the contexts of the two disagreeing runs only."""
+    if kind in ("hist", "long"):
+        p = progs[rej["input"] - 1]
+        cls = p["err"] if p["collide"] == "-" else "collide"
+        if kind == "hist":
+            return "C16|history|%s|%s" % (cls, rej["what"])
+        return "C16|long-history|%s|%s|%s" % ("no-std" if p["nostd"] else "std", cls, rej["what"])
+    if kind == "path":
+        return "C16|spelling|%s|shape=%d|%s" % (rej["ctx_b"]["spelling"], grp["case"]["shape"], rej["what"])
+    return "C16|hash-seed|%s|m=%d|%s" % (grp["case"]["fam"], grp["case"]["m"], rej["what"])
+
+
+def ctx_describe(kind, grp, rej, progs):
+    a, b = rej["ctx_a"], rej["ctx_b"]
+    if kind == "hist":
+        name = progs[rej["input"] - 1]["name"]
+        hist = lambda c: "fresh" if not c["before"] else "after " + ", ".join(progs[i - 1]["name"] for i in c["before"])
+        return "program %s compiled %s and %s (one process each) differs in %s" % (name, hist(a), hist(b), rej["what"])
+    if kind == "long":
+        return "long history %s: compilation %d and compilation %d of program %s in the same thread differ in %s" % (
+            grp["spec"], a["step"], b["step"], progs[rej["input"] - 1]["name"], rej["what"])
+    if kind == "path":
+        return "disk project %s: `cd %s; sylt %s` and `cd %s; sylt %s` differ in %s" % (
+            grp["spec"], a["cwd"], a["arg"], b["cwd"], b["arg"], rej["what"])
+    return "input %s (%s): run %d and run %d under different hash keys differ in %s (%d distinct results in %d runs)" % (
+        grp["spec"], grp["case"]["fam"], a["run"], b["run"], rej["what"], rej["distinct"], grp["n"])
+
+
+def record_ctx(kind, outdir, args, env=None):
+    os.makedirs(outdir, exist_ok=True)
+    vlib.harness("c16", ["ctx", kind, outdir] + list(args), env=env)
+    rd = lambda f: vlib.read_ndjson(os.path.join(outdir, f))
+    return rd(kind + ".ndjson"), rd(kind + "-groups.ndjson"), rd(kind + "-full.ndjson"), rd("progs.ndjson")
+
+
+def validate_ctx(wd, name, kind, outdir, data, ev, verdicts, workers=4, timeout=1500):
+    recs, groups, fulls, progs = data
+    r = vlib.tlc("MC_TraceDetContext", cfg="MC_TraceDetContext.cfg", wd=wd,
+                 env={"TRACE": os.path.join(outdir, kind + ".ndjson"), "GROUPS": os.path.join(outdir, kind + "-groups.ndjson"),
+                      "PROGS": os.path.join(outdir, "progs.ndjson"), "KIND": kind},
+                 tags=("REJECT",), workers=workers, timeout=timeout, out_file=os.path.join(wd, "tlc-" + name + ".out"))
+    vlib.require_tlc_ok(r, "Trace_DetContext/" + name)
+    rejects = list({p["g"]: p for (_, p) in r.records}.values())  # ENABLED re-evaluates PrintT
+    cov = {k: v[1] for k, v in r.coverage.items() if k.startswith("Trace")}
+    if cov.get("TraceInit", 0) != len(groups) or cov.get("TraceRun", 0) != len(recs):
+        vlib.tool_error("vacuity: %s replayed %s runs of %s groups, trace has %d of %d" % (
+            name, cov.get("TraceRun"), cov.get("TraceInit"), len(recs), len(groups)))
+    if cov.get("TraceAccept", 0) + cov.get("TraceReject", 0) != len(groups) or cov.get("TraceReject", 0) != len(rejects):
+        vlib.tool_error("vacuity: %s: accept+reject != groups (%s)" % (name, cov))
+    full_at = {(f["g"], f["j"]): f["full"] for f in fulls if not f.get("reference")}
+    full_ref = {}
+    for f in fulls:
+        if f.get("reference"):
+            full_ref.setdefault((f.get("g", 0), f["input"]), f["full"])
+    shown = collections.Counter()
+    for rej in sorted(rejects, key=lambda p: p["g"]):
+        grp = groups[rej["g"] - 1]
+        sig = ctx_signature(kind, grp, rej, progs)
+        shown[sig] += 1
+        a, b = rej["runs"]
+        res = lambda j: full_at.get((grp["g"], j)) or full_ref.get((grp["g"], rej["input"])) or full_ref.get((0, rej["input"]))
+        replay = {"kind": kind, "spec": grp["spec"], "reject": rej}
+        if "case" in grp:
+            replay["case"] = grp["case"]
+        if kind in ("hist", "long"):
+            replay["program"] = {k: v for k, v in progs[rej["input"] - 1].items() if k != "source_files"}
+            replay["history_a"] = [progs[i - 1]["name"] for i in rej["ctx_a"].get("before", [])]
+            replay["history_b"] = [progs[i - 1]["name"] for i in rej["ctx_b"].get("before", [])]
+        if kind == "seed":
+            replay["digest_counts"] = grp.get("digest_counts")
+        if shown[sig] <= 3:
+            replay["files"] = grp.get("files") or progs[rej["input"] - 1]["source_files"]
+            replay["results"] = {"run_%d" % a: res(a), "run_%d" % b: res(b)}
+        verdicts.add(sig, ctx_describe(kind, grp, rej, progs), replay)
+    ev.add("states", r.distinct)
+    ev.add("transitions", r.generated)
+    ev.add("traces_validated_against_impl", len(groups))
+    ev.add("evaluations", len(recs))
+    ev.cov.setdefault("universes", {})[name] = {
+        "groups": len(groups), "runs": len(recs), "rejected": len(rejects), "tlc_states": r.distinct,
+        "tlc_wall_s": round(r.wall_s, 1), "actions": cov, "classes": dict(collections.Counter(x["class"] for x in recs))}
+    return rejects
+
+
+def ctx_guards(kind, data, tier):
+    """Vacuity guards of the context universes (tool errors, never verdicts). Returns measurements for the evidence."""
+    recs, groups, fulls, progs = data
+    m = {}
+    if kind == "hist":
+        fresh = {}
+        for g in groups:
+            fresh[g["key"]] = recs[g["first"] - 1]
+        wrong = [progs[t - 1]["name"] for t, r in fresh.items() if r["class"] != progs[t - 1]["expect"]]
+        if wrong:
+            vlib.tool_error("vacuity: library programs that do not get the class they are built for: %s" % wrong)
+        in_preamble = 0
+        for f in fulls:
+            if f.get("reference") and progs[f["input"] - 1]["err"] == "collide" and f["full"]:
+                errs = f["full"].get("errors") or []
+                if errs and errs[0]["file"] == "lib:preamble":
+                    in_preamble += 1
+        if in_preamble == 0:
+            vlib.tool_error("vacuity: no name collision is reported at a location inside the preamble")
+        lens = collections.Counter(len(r["before"]) for r in recs)
+        if not all(lens.get(k) for k in (0, 1, 2, 3)):
+            vlib.tool_error("vacuity: histories of length 0..3 must all occur: %s" % dict(lens))
+        m = {"targets": len(groups), "processes": sum(1 for r in recs if r["step"] == 1),
+             "compilations_by_history_length": {str(k): v for k, v in sorted(lens.items())},
+             "collisions_located_in_preamble": in_preamble,
+             "warm_up_programs": [p["name"] for p in progs if p["warm"]]}
+    elif kind == "long":
+        per = {}
+        for g in groups:
+            rs = recs[g["first"] - 1:g["first"] - 1 + g["n"]]
+            occ = collections.Counter(r["prog"] for r in rs)
+            syn = sum(1 for r in rs if progs[r["prog"] - 1]["err"] == "syntax")
+            if min(occ.values()) < 2:
+                vlib.tool_error("vacuity: a program occurs once in long history %s" % g["spec"])
+            if len({r["class"] for r in rs}) < 2:
+                vlib.tool_error("vacuity: long history %s does not mix accepted and rejected programs" % g["spec"])
+            per[g["spec"]] = {"compilations": g["n"], "programs": len(occ), "syntax_error_compilations": syn,
+                              "bracket_levels_around_syntax_errors": sum(progs[r["prog"] - 1]["depth"] for r in rs
+                                                                         if progs[r["prog"] - 1]["err"] == "syntax")}
+        if max(v["syntax_error_compilations"] for v in per.values()) < 100:
+            vlib.tool_error("vacuity: no long history has >= 100 compilations with a syntax error inside brackets")
+        m = per
+    elif kind == "path":
+        wrong = [g["spec"] for g in groups if recs[g["first"] - 1]["class"] != g["case"]["expect"]]
+        if wrong:
+            vlib.tool_error("vacuity: disk projects whose reference spelling does not get the intended class: %s" % wrong)
+        m = {"projects": len(groups), "spellings": sorted({r["spelling"] for r in recs}),
+             "accepted_projects": sum(1 for g in groups if g["case"]["expect"] == "ok")}
+    else:
+        n = min(g["n"] for g in groups)
+        fams = collections.defaultdict(collections.Counter)
+        for g in groups:
+            fams[g["case"]["fam"]][recs[g["first"] - 1]["class"]] += 1
+        if n < 200:
+            vlib.tool_error("vacuity: fewer than 200 hash seeds per input")
+        if len(fams) != 6:
+            vlib.tool_error("vacuity: seed families missing: %s" % sorted(fams))
+        det = {}
+        for p in (0.005, 0.0078, 0.016, 0.05):
+            one = 1 - (1 - p) ** n - p ** n
+            per_fam = min(sum(v.values()) for v in fams.values())
+            det["p=%g" % p] = {"one_input": round(one, 4), "family_of_%d_inputs" % per_fam: round(1 - (1 - one) ** per_fam, 6)}
+        m = {"inputs": len(groups), "seeds_per_input": n, "first_run_classes_per_family": {f: dict(c) for f, c in sorted(fams.items())},
+             "detection_probability_for_a_per_run_effect": det}
+    return m
+
+
+def context_spec_selftest(wd, ev):
+    r = vlib.tlc("MC_DetContext", cfg="MC_DetContext.cfg", wd=wd, workers=4, timeout=600)
+    vlib.require_tlc_ok(r, "SyltDetContext generator model (function mode)")
+    steps = action_count(r.log, "CStep")
+    if steps == 0:
+        vlib.tool_error("vacuity: spec action CStep never taken")
+    ev.add("states", r.distinct)
+    ev.add("transitions", r.generated)
+    out = {"function_mode": {"states": r.distinct, "transitions": r.generated, "CStep": steps,
+                             "invariants": ["Determinism", "HistDeterminism", "HistoryIndependence", "SpellingIndependence",
+                                            "ContextFormsFollow", "SeenIsImageOfHist", "TwoFormsAgree"],
+                             "assume": "ContextUniverseWellFormed"}}
+    for mode, inv in (("cache", "HistoryIndependence"), ("counter", "HistoryIndependence"), ("spelling", "SpellingIndependence")):
+        r2 = vlib.tlc("MC_DetContext", cfg="MC_DetContext_%s.cfg" % mode, wd=wd, workers=1, timeout=600,
+                      out_file=os.path.join(wd, "tlc-MC_DetContext_%s.out" % mode))
+        if r2.timed_out or r2.invariant_violated != inv:
+            vlib.tool_error("spec-level negative control: a %s implementation must violate %s, TLC said: %s" % (
+                mode, inv, r2.invariant_violated or (r2.error or "no error")[:500]))
+        out[mode + "_mode"] = {"violated": r2.invariant_violated, "states_until_violation": r2.distinct}
+    ev.set(context_spec_model=out)
+
+
+NEG_CTX_ARGS = {"hist": ["required", "7,8,15,20"], "long": ["200", "2000", "2,5"], "path": ["1,2,3,20,40,60"],
+                "seed": ["200", "ids:1,2,3,4,5,6,7,8,9"]}
+
+
+def context_negative_controls(wd, tier):
+    """A recorder that salts one digest of some groups: TLC must reject every salted group."""
+    n = 0
+    for kind in CTX_KINDS:
+        outdir = os.path.join(wd, "neg-" + kind)
+        data = record_ctx(kind, outdir, NEG_CTX_ARGS[kind], env={"C16_STUB": "salt"})
+        neg_v = vlib.Verdicts(PID, control=True)
+        neg_v.known = []
+        rej = validate_ctx(wd, "negative-control-" + kind, kind, outdir, data, vlib.Evidence(PID, tier, "exploration"), neg_v, workers=2)
+        salted = {g["g"] for g in data[1] if g.get("salted")}
+        if not salted:
+            vlib.tool_error("negative control (%s): nothing was salted" % kind)
+        if not salted <= {p["g"] for p in rej}:
+            vlib.tool_error("negative control accepted: %s groups with one salted run were not rejected" % kind)
+        n += len(salted)
+    return n
+
+
 def run(ctx):
     tier = ctx.tier
     wd = vlib.workdir(PID)
     ev = vlib.Evidence(PID, tier, "exploration")
     verdicts = vlib.Verdicts(PID)
     vlib.build_harness()
+
+    if ctx.replay and json.load(open(ctx.replay))["replay"].get("kind") in CTX_KINDS:
+        rp = json.load(open(ctx.replay))["replay"]
+        kind, key = rp["kind"], rp["spec"].split(":")[1]
+        args = {"hist": ["all", key], "long": ["1200", "6000", key], "path": [key], "seed": ["2048", "ids:" + key]}[kind]
+        outdir = os.path.join(wd, "replay-" + kind)
+        data = record_ctx(kind, outdir, args)
+        validate_ctx(wd, "replay", kind, outdir, data, ev, verdicts, workers=2)
+        ev.set(samples=[{"spec": rp["spec"], "kind": kind, "runs": len(data[0])}], distinct_nontrivial=1,
+               rule="replay of one %s group" % kind)
+        rc = verdicts.finish()
+        ev.violations = len(verdicts.violations)
+        ev.write()
+        return rc
 
     if ctx.replay:
         rp = json.load(open(ctx.replay))["replay"]
@@ -169,6 +410,7 @@ def run(ctx):
 
     # 1. the specification on its own (+ universe well-formedness, + spec-level negative control)
     spec_selftest(wd, ev)
+    context_spec_selftest(wd, ev)
 
     # 2. conformance: universe
     count = "600" if tier == "quick" else "all"
@@ -196,6 +438,31 @@ def run(ctx):
                         "runs": ["%s:%s:%s" % (x["process"], x["class"], x["digest"])
                                  for x in crecs[(len(cinputs) // 2) * NRUNS:(len(cinputs) // 2 + 1) * NRUNS]]})
 
+    # 3b. conformance: the context universes (histories, long histories, spellings, hash seeds)
+    ctx_meas, ctx_inputs, ctx_rejected = {}, 0, 0
+    for kind in CTX_KINDS:
+        outdir = os.path.join(wd, "ctx")
+        data = record_ctx(kind, outdir, ctx_args(kind, tier))
+        rej = validate_ctx(wd, kind, kind, outdir, data, ev, verdicts)
+        ctx_meas[kind] = ctx_guards(kind, data, tier)
+        ctx_rejected += len(rej)
+        ctx_inputs += len(data[3]) if kind == "hist" else (0 if kind == "long" else len(data[1]))
+        if kind == "hist":
+            g = data[1][7]
+            samples.append({"spec": g["spec"], "kind": "hist", "program": data[3][g["key"] - 1]["name"],
+                            "main_source": data[3][g["key"] - 1]["source_files"]["main.sy"],
+                            "runs": ["after %s: %s:%s" % ([data[3][i - 1]["name"] for i in x["before"]], x["class"], x["digest"])
+                                     for x in data[0][g["first"] - 1:g["first"] + 5]]})
+        elif kind == "path":
+            g = data[1][0]
+            samples.append({"spec": g["spec"], "kind": "path", "files": sorted(g["files"]),
+                            "runs": ["cd %s; sylt %s: %s:%s" % (x["cwd"], x["arg"], x["class"], x["digest"])
+                                     for x in data[0][g["first"] - 1:g["first"] - 1 + g["n"]]]})
+        elif kind == "seed":
+            g = data[1][0]
+            samples.append({"spec": g["spec"], "kind": "seed", "case": g["case"], "main_source": g["files"]["main.sy"],
+                            "digest_counts": g["digest_counts"]})
+
     # 4. negative control: a recorder that lies about one run of every fifth input
     t_n, i_n = os.path.join(wd, "neg.ndjson"), os.path.join(wd, "neg-inputs.ndjson")
     vlib.harness("c16", ["record", "universe", "150", t_n, i_n], env={"C16_STUB": "salt"})
@@ -210,7 +477,8 @@ def run(ctx):
         vlib.tool_error("negative control: nothing was salted")
     if not salted <= neg_rejected:
         vlib.tool_error("negative control accepted: %d inputs with one salted run were not rejected" % len(salted - neg_rejected))
-    ev.set(negative_controls_rejected=len(salted & neg_rejected))
+    ctx_neg = context_negative_controls(wd, tier)
+    ev.set(negative_controls_rejected=len(salted & neg_rejected) + ctx_neg)
 
     # 5. vacuity guards
     cls = stats["classes"]
@@ -234,9 +502,16 @@ def run(ctx):
                 "quick: 40 per family, seeded; thorough: all) plus every .sy file under /repo/tests as a main file; each input is compiled "
                 "9 times (6 in one process interleaved with all other inputs, 3 in separate processes with different HOME/LANG/TZ/"
                 "RUST_BACKTRACE/cwd/thread count). distinct_nontrivial = distinct project texts (fnv of all files) whose first run had the "
-                "class its family intends (corpus: distinct main files); hash seeds are sampled by repetition, not enumerated" % usize,
-           distinct_nontrivial=len(nontrivial) + len(corpus_nontrivial),
-           programs=len(inputs) + len(cinputs),
+                "class its family intends (corpus: distinct main files); hash seeds are sampled by repetition, not enumerated. "
+                "Context universes of SyltDetContext (all index-addressed in TLA+, every recorded context re-derived by TLC): hist = 34 "
+                "library programs x 32 process histories (fresh; P,P,P; W,P; W,W',P; W,P,W',P for 10 warm-up programs W), one process per "
+                "history; long = 6 histories of 400/2500 (thorough 1200/6000) compilations in one thread; path = 64 disk projects "
+                "(rooted and relative imports of one module, sub-folders, exports.sy, 3 error kinds) x 9 spellings of the main file / "
+                "working directories, one process each, errors compared with file names normalised; seed = 864 declarations with a "
+                "member written 2-3 times (quick: 120, stratified), each compiled under 256 (thorough 512) fresh hash keys" % usize,
+           distinct_nontrivial=len(nontrivial) + len(corpus_nontrivial) + ctx_inputs,
+           programs=len(inputs) + len(cinputs) + ctx_inputs,
+           context_universes=ctx_meas,
            multi_error={"inputs_with_k_planted_errors": stats["multi_inputs"],
                         "inputs_returning_ge2_errors": stats["multi_with_ge2_errors"],
                         "rate": round(multi_rate, 3),
@@ -244,9 +519,15 @@ def run(ctx):
                         "inputs_whose_runs_report_different_first_errors": stats["multi_first_error_differs"],
                         "per_family": {f: {k: v[k] for k in ("inputs", "max_nerr", "ge2", "first_differs")}
                                        for f, v in sorted(stats["families"].items()) if f.startswith("rej-")}},
-           inputs_rejected_by_tlc=len(rejected_inputs) + len(crejects),
+           inputs_rejected_by_tlc=len(rejected_inputs) + len(crejects) + ctx_rejected,
            known_findings_hit=verdicts.known_hits)
-    ev.assume("TLC and the SyltDeterminism module are the reference; the recorder's FNV digests stand for the bytes "
+    ev.assume("on-disk projects are compiled through sylt::compile_with_reader_to_writer with sylt::read_file (what the sylt binary "
+              "calls) in a child process whose cwd and argument are the spelling; the binary's own argument parsing is not exercised",
+              "for on-disk projects the spelling of file names inside errors may follow the spelling of the main file: error kinds, "
+              "lines, columns, order and texts are compared after colour codes are removed and every *.sy path is normalised",
+              "a per-run effect of probability p on a hash-keyed structure is seen in one input with probability 1-(1-p)^N-p^N "
+              "(N seeds per input; table in coverage.context_universes.seed)",
+              "TLC and the SyltDeterminism module are the reference; the recorder's FNV digests stand for the bytes "
               "(a 64-bit collision between two different results of one input would hide a violation)",
               "RandomState keys are sampled by repeating runs: an order-dependence that shows with probability p per run is missed "
               "with probability about (1-p)^8 per input; every family has >= 40 inputs per run",
